@@ -27,7 +27,7 @@
 //	(*Ruleset).AddSet(name, *refpolicy.IPSet) / AddVMap(name, members)
 //	(*Ruleset).Err()                         first load error (Unparsed wins over Rejected)
 //	(*Ruleset).Run(chain, *Packet)           walk from a chain; Result{Verdict, Mark, ...}
-//	(*Ruleset).Dump()                        the loaded text, for witnesses
+//	(*Ruleset).Dump() / ChainTexts(chain)     the loaded text, for witnesses / re-use
 package nfsim
 
 import (
@@ -497,6 +497,19 @@ func (rs *Ruleset) Dump() string {
 		}
 	}
 	return b.String()
+}
+
+// ChainTexts returns the rule texts of one chain in order (nil if the chain is absent).
+func (rs *Ruleset) ChainTexts(name string) []string {
+	c := rs.chains[name]
+	if c == nil {
+		return nil
+	}
+	var out []string
+	for _, r := range append(append([]*Rule(nil), c.Rules...), c.appended...) {
+		out = append(out, r.Text)
+	}
+	return out
 }
 
 // DumpChain renders one chain.
